@@ -48,13 +48,19 @@ Definition n_edges (g : graph) : nat := length (gedges g).
 Definition monos_g (ind : bool) (nm em : attrs -> attrs -> bool) (H P : graph) : list mapping :=
   monos (node_ids P) (node_ids H) (nlabel P) (nlabel H) (LGraph.adj P) (LGraph.adj H) nm em ind.
 
-(** short-circuit decision procedure with the same search tree as [monos] *)
+(** short-circuit decision procedure with the same search tree as [monos].
+    ([existsb] / [&&] do not short-circuit under call-by-value [vm_compute]: the search must branch with [if].) *)
+Fixpoint any {X : Type} (f : X -> bool) (l : list X) : bool :=
+  match l with
+  | [] => false
+  | x :: r => if f x then true else any f r
+  end.
 Fixpoint ext_any (H P : graph) (nm em : attrs -> attrs -> bool) (ind : bool) (ps : list N) (acc : mapping) : bool :=
   match ps with
   | [] => true
   | p :: ps' =>
-      existsb (fun h => ok (nlabel P) (nlabel H) (LGraph.adj P) (LGraph.adj H) nm em ind p h acc
-                        && ext_any H P nm em ind ps' ((p, h) :: acc)) (node_ids H)
+      any (fun h => if ok (nlabel P) (nlabel H) (LGraph.adj P) (LGraph.adj H) nm em ind p h acc
+                    then ext_any H P nm em ind ps' ((p, h) :: acc) else false) (node_ids H)
   end.
 Definition has_mono (ind : bool) (nm em : attrs -> attrs -> bool) (H P : graph) : bool :=
   ext_any H P nm em ind (node_ids P) [].
